@@ -965,6 +965,40 @@ func genE2EClass(r *rand.Rand, id int, force string) Case {
 	return c
 }
 
+// repeated profiles: the same profile stored twice or more (an idle service scraped twice, a push re-sent by the agent after
+// a timeout, two replicas with the same stacks and counts): A,A / A,B,A / A,A,A ...  The stored trees of the copies are
+// identical, so a statement that reads the stored profiles as a SET (SELECT DISTINCT in the raw select) loses their weight.
+// Drawn from an own stream so that the main stream stays what it was; path and failed inserts of a copy are its own.
+func addRepeats(r *rand.Rand, c *Case) {
+	if c.Kind != "e2e" || len(c.Profs) == 0 || len(c.Profs) > 4 || r.Intn(4) != 0 {
+		return
+	}
+	switch c.Class {
+	case "big", "bigtags", "deep", "wide", "bad", "nosamples":
+		return
+	}
+	added := 0
+	for j := 1 + r.Intn(2); j > 0; j-- {
+		src := c.Profs[r.Intn(len(c.Profs))]
+		if len(src.Samples) == 0 || len(src.Samples) > 30 {
+			continue
+		}
+		cp := Prof{Path: []string{"bin", "bingz", "mp"}[r.Intn(3)], St: src.St, Pad: src.Pad, TagPad: src.TagPad, Inl: src.Inl, Bad: src.Bad,
+			Samples: append([]Sample{}, src.Samples...)}
+		if r.Intn(3) == 0 {
+			cp.Fail = 1
+		}
+		pos := r.Intn(len(c.Profs) + 1)
+		c.Profs = append(c.Profs, Prof{})
+		copy(c.Profs[pos+1:], c.Profs[pos:])
+		c.Profs[pos] = cp
+		added++
+	}
+	if added > 0 {
+		c.Class += "+repeat"
+	}
+}
+
 // synthetic rows for the reader alone: well-formed trees, and adversarial ones (same node id under two
 // parents, cycles, the same function twice under one parent, negative values, dangling parents)
 func genRows(r *rand.Rand, id int) Case {
@@ -1074,6 +1108,7 @@ func main() {
 		return
 	}
 	r := hx.Rand(f.Seed)
+	r3 := hx.Rand(f.Seed ^ 0x2545f491)
 	for i := 0; i < f.N; i++ {
 		var c Case
 		switch {
@@ -1085,6 +1120,7 @@ func main() {
 			c = genRows(r, i)
 		default:
 			c = genE2E(r, i)
+			addRepeats(r3, &c)
 		}
 		run(&c)
 		out.Put(c)
